@@ -424,15 +424,17 @@ def gen_fingering(shard):
         # a thin slice of triples: every third pitch of the window
         sub = win[::3]
         for tr in itertools.combinations_with_replacement(sub, 3):
-            yield [key, dk, list(tr), 4, "notes"]
+            for md in (4, 6, 2):        # the caller's max_distance must reach every level of the search
+                yield [key, dk, list(tr), md, "notes"]
     else:
         for tr in itertools.combinations_with_replacement(win, 3):
-            for md in (3, 4, 5):
+            for md in (3, 4, 5, 7):
                 yield [key, dk, list(tr), md, "notes"]
             yield [key, dk, [tr[2], tr[0], tr[1]], 4, "notes"]
         sub = win[::4]
         for q in itertools.combinations(sub, 4):
             yield [key, dk, list(q), 4, "nc"]
+            yield [key, dk, list(q), 6, "notes"]
 
 
 # ---------------------------------------------------------------------------------------
